@@ -35,6 +35,8 @@ def _lean_modules():
         mods.append("PyAirtouch.Props.C09At4")
     if os.path.exists(os.path.join(core.LEAN_DIR, "PyAirtouch", "Props", "C09At4b.lean")):
         mods.append("PyAirtouch.Props.C09At4b")
+    if os.path.exists(os.path.join(core.LEAN_DIR, "PyAirtouch", "Props", "C09Bytes.lean")):
+        mods.append("PyAirtouch.Props.C09Bytes")
     return mods
 
 
